@@ -184,20 +184,47 @@ impl Poly {
     }
 }
 
-/// The same polynomial evaluated by the code under test: only from_i64, `*` and `+` on whatever number type the
-/// driver hands to the closure.
-pub fn eval_generic<X: DualNum<F> + Clone, F>(p: &Poly, vars: &[X]) -> X {
-    let mut acc: Option<X> = None;
+/// The same polynomial evaluated by the code under test, written the way user closures are written: owned and
+/// in-place forms of + - *, operands on either side, an accumulator that starts as a constant (absent derivative
+/// parts), negation, exact scalar and dual division.  `style` picks the forms; every style computes the same exact value.
+pub fn eval_generic<X: DualNum<F> + Clone, F: num_dual::DualNumFloat>(p: &Poly, vars: &[X], style: u64) -> X {
+    let mut r = Rng::new(style);
+    let two = F::from_f64(2.0).expect("2 as F");
+    let mut acc: Option<X> = if r.chance(500) { Some(X::zero()) } else { None };
     for (c, e) in &p.terms {
-        let mut term = X::from_i64(*c).expect("from_i64");
+        let neg = *c < 0;
+        let mut term = X::from_i64(c.abs()).expect("from_i64");
         for (v, k) in vars.iter().zip(e) {
             for _ in 0..*k {
-                term = term * v.clone();
+                match r.below(3) {
+                    0 => term = term * v.clone(),
+                    1 => term *= v.clone(),
+                    _ => term = v.clone() * term,
+                }
             }
         }
-        acc = Some(match acc {
-            None => term,
-            Some(a) => a + term,
+        if r.chance(250) {
+            term = (term * two) / two;
+        }
+        if r.chance(150) {
+            let four = X::from_i64(4).expect("4");
+            term = (term * four.clone()) / four;
+        }
+        acc = Some(match (acc, neg, r.below(3)) {
+            (None, false, _) => term,
+            (None, true, _) => -term,
+            (Some(a), false, 0) => a + term,
+            (Some(mut a), false, 1) => {
+                a += term;
+                a
+            }
+            (Some(a), false, _) => term + a,
+            (Some(a), true, 0) => a - term,
+            (Some(mut a), true, 1) => {
+                a -= term;
+                a
+            }
+            (Some(a), true, _) => -(term - a),
         });
     }
     acc.unwrap_or_else(X::zero)
